@@ -29,8 +29,10 @@ def cq_ilog(l):
 
 def cq_obs(obs):
     t = obs["pytruth"]
-    return ("{| o_outcome := %d%%Z; o_lines := %s; o_recorded := %s; o_pylog := %s; o_pytruth := %s; o_text_ok := %s |}"
+    return ("{| o_outcome := %d%%Z; o_lines := %s; o_recorded := %s; o_pylog := %s; o_pyinner := %s; o_pytruth := %s; "
+            "o_text_ok := %s |}"
             % (obs["outcome"], X.cq_env(obs["lines"]), cq_ilog(obs["recorded"]), cq_ilog(obs["pylog"]),
+               cq_ilog(obs.get("pyinner", [])),
                "None" if t is None else "(Some %s)" % ("true" if t else "false"), "true" if obs["text_ok"] else "false"))
 
 
